@@ -116,6 +116,7 @@ type Run struct {
 	res      *Result
 	started  time.Time
 	pathsN   int64
+	overrideFns map[*ssa.Function]*ssa.Function
 }
 
 // HarnessCfg describes one harness exploration.
@@ -132,6 +133,9 @@ type HarnessCfg struct {
 	MaxSamples int
 	Params     map[string]int
 	Fixed      map[string]int // debugging: pin NdIntRange selectors
+	// Overrides replaces repo functions by harness functions for this harness
+	// (keys and values are ssa.Function.String() names with the module path abbreviated as "~").
+	Overrides map[string]string
 }
 
 type interpreter struct {
@@ -542,6 +546,20 @@ func Explore(p *Program, cfg *HarnessCfg) *Result {
 	fn := pkg.Func(cfg.Func)
 	if fn == nil {
 		panic("no such harness: " + cfg.Pkg + "." + cfg.Func)
+	}
+	r.overrideFns = map[*ssa.Function]*ssa.Function{}
+	if len(cfg.Overrides) > 0 {
+		byName := map[string]*ssa.Function{}
+		for f := range p.allFuncs() {
+			byName[f.String()] = f
+		}
+		for from, to := range cfg.Overrides {
+			ff, tf := byName[strings.ReplaceAll(from, "~", p.Module)], byName[strings.ReplaceAll(to, "~", p.Module)]
+			if ff == nil || tf == nil {
+				panic("override: unknown function " + from + " or " + to)
+			}
+			r.overrideFns[ff] = tf
+		}
 	}
 	r.work = []workItem{{}}
 	var wg sync.WaitGroup
